@@ -33,7 +33,15 @@ def hashHandler : Handler
         else match sel.find? (fun (_, _, h) => h != h0) with
           | some (kind, _, h) => throw s!"presentation {kind} has a different HashValue ({h}) than the canonical one ({h0})"
           | none => if b.isEmpty && h0 != "0" then throw s!"the empty schema has HashValue {h0}" else pure () : Check)
-    let same := sameOver (ps.filter (fun (k, _, _) => k != "detour" && k != "table-level-pk"))
+    let same := sameOver (ps.filter (fun (k, _, _) => k != "detour" && k != "table-level-pk" && k != "alter-column"))
+    -- the ALTER COLUMN route (postgres): an ALTER statement on a reserved-word table / column goes to a second, quoted
+    -- entity (recorded finding postgres-reader-vocabulary)
+    let alters := ps.filter (fun (k, _, _) => k == "alter-column")
+    let sameAlter := sameOver alters
+    let quotedAlter := alters.any (fun (_, ss, _) => ss.any (fun s => match s with
+      | .alterType t c _ | .setDefault t c _ | .dropNotNull t c => Scope.pgQuoted t || Scope.pgQuoted c
+      | _ => false))
+    let alterRegion := region.orElse fun _ => if quotedAlter then some "postgres-reader-vocabulary" else none
     -- the primary key's two representations hash differently (recorded finding pk-inline-vs-table-level)
     let tlpk := ps.filter (fun (k, _, _) => k == "table-level-pk")
     let sameTlpk := sameOver tlpk
@@ -61,7 +69,8 @@ def hashHandler : Handler
       let gg := if kind == "case-option" then { g with lower := !g.lower } else g
       v.and (expectOutcome s!"hash-{kind}" (modelHash gg ss) h)) okV
     some (corr.and ((judge "C07" region same).and ((judge "C07" (detourRegion.map (· ++ "/detour")) sameDetour).and
-      ((judge "C07" (region.map (· ++ "/edits")) differs).and (judge "C07" tlpkRegion sameTlpk)))))
+      ((judge "C07" (region.map (· ++ "/edits")) differs).and ((judge "C07" tlpkRegion sameTlpk).and
+        (judge "C07" (alterRegion.map (· ++ "/alter-column")) sameAlter))))))
   | _ => none
 
 end Sqlize.Driver
